@@ -31,7 +31,8 @@ pub fn resolve_constants_simple(
             opts,
             ast_symbol,
             decls,
-            defs)?;
+            defs,
+            ctx.symbol_ctx)?;
 
         if let asm::ResolutionState::Resolved = resolution_state
         {
@@ -48,7 +49,8 @@ fn resolve_constant_simple(
     opts: &asm::AssemblyOptions,
     ast_symbol: &asm::AstSymbol,
     decls: &asm::ItemDecls,
-    defs: &mut asm::ItemDefs)
+    defs: &mut asm::ItemDefs,
+    symbol_ctx: &util::SymbolContext)
     -> Result<asm::ResolutionState, ()>
 {
     let item_ref = ast_symbol.item_ref.unwrap();
@@ -80,6 +82,7 @@ fn resolve_constant_simple(
         report,
         decls,
         defs,
+        symbol_ctx,
         &ast_const.expr)?;
 
 
